@@ -63,7 +63,7 @@ func TestCheck(t *testing.T) {
 	r := kit.Start(t, "C16")
 	defer r.Finish()
 	r.Rule("case = PRNG sequence of Add (incl. repeats, exempt types, deadlines equal/earlier/already passed, concurrent adders) " +
-		"and clock advances on a coarse grid against the real core.Deadliner on a fake clock with a continuously reading consumer; modes sustained (<=10 due per advance) and burst (>10 due at once); " +
+		"and clock advances on a coarse grid against the real core.Deadliner on a fake clock with a reading consumer that in burst mode is paused across half of the advances (receiver behind: output buffer full, backlog behind it) and then resumed; modes sustained (<=10 due per advance) and burst (>10 due at once); " +
 		"non-trivial = at least one duty reported and (two duties shared a deadline or a pending duty was re-added or an add arrived exactly at / after its deadline); distinct = hash of the op sequence")
 	r.Assume("clockwork.FakeClock semantics (timers with non-positive duration fire immediately)")
 	r.Assume("re-registering an already reported duty at exactly its deadline instant is not generated (fake-clock-only coincidence, unspecified by the statement)")
@@ -71,6 +71,7 @@ func TestCheck(t *testing.T) {
 	r.Require("reports", 100)
 	r.Require("adds_scheduled", 100)
 	r.Require("adds_expired", 20)
+	r.Require("output_buffer_full_while_consumer_paused", 20)
 
 	n := r.N(3000, 200000)
 	r.Cases(n, 0, func(c *kit.Case) { runCase(c) })
@@ -148,10 +149,44 @@ func runCase(c *kit.Case) {
 		mu      sync.Mutex
 		reports []report
 	)
+	// The consumer can be paused (a receiver that falls behind): while paused it does not read, so
+	// deadlined duties pile up in the output buffer and behind it; after resume everything pending
+	// must still arrive exactly once and in order.
+	var (
+		pmu    sync.Mutex
+		resume chan struct{} // non-nil while paused
+	)
+	pause := func() {
+		pmu.Lock()
+		if resume == nil {
+			resume = make(chan struct{})
+		}
+		pmu.Unlock()
+	}
+	unpause := func() {
+		pmu.Lock()
+		if resume != nil {
+			close(resume)
+			resume = nil
+		}
+		pmu.Unlock()
+	}
 	consumerDone := make(chan struct{})
 	go func() {
 		defer close(consumerDone)
 		for {
+			pmu.Lock()
+			rc := resume
+			pmu.Unlock()
+			if rc != nil {
+				select {
+				case <-rc:
+				case <-ctx.Done():
+					return
+				}
+
+				continue
+			}
 			select {
 			case <-ctx.Done():
 				return
@@ -350,6 +385,21 @@ func runCase(c *kit.Case) {
 
 	nOps := 10 + rng.Intn(40)
 	var opHash []any
+	if mode == "burst" {
+		// a bulk registration up front, so that big advances really make more than the output buffer due
+		k := 12 + rng.Intn(20)
+		now := clock.Now()
+		for _, i := range rng.Perm(len(pool)) {
+			if k == 0 {
+				break
+			}
+			if d := pool[i]; eligible(d, now, now) {
+				opHash = append(opHash, "a", d)
+				doAdd(d, now, now, false)
+				k--
+			}
+		}
+	}
 	for i := 0; i < nOps && !inconclusive && !lost; i++ {
 		now := clock.Now()
 		switch k := rng.Intn(10); {
@@ -427,8 +477,24 @@ func runCase(c *kit.Case) {
 			// then arms a relative timer; on a FakeClock an Advance between those two steps arms the
 			// timer late by the advance (a real monotonic clock cannot jump between them), so such
 			// overlap would manufacture late reports the real system cannot have.
+			slow := mode == "burst" && rng.Intn(2) == 0
+			if slow {
+				pause()
+				r.Count("advances_with_paused_consumer", 1)
+			}
 			clock.Advance(adv)
-			trace = append(trace, opRec{Op: "advance", Adv: adv.String(), Now: clock.Now().Sub(t0).String()})
+			trace = append(trace, opRec{Op: "advance", Adv: adv.String(), Now: clock.Now().Sub(t0).String(), Status: map[bool]string{true: "consumer-paused"}[slow]})
+			if slow {
+				// let the deadliner work through everything that became due while nobody reads, then resume
+				ok := settle()
+				if len(dl.C()) == cap(dl.C()) {
+					r.Count("output_buffer_full_while_consumer_paused", 1)
+				}
+				unpause()
+				if !ok {
+					break
+				}
+			}
 			// "Quiet period": when the model says nothing became due, the deadliner has nothing to do and
 			// is NOT probed — the next registration then meets it exactly as time left it (a deadliner
 			// that remembers an older "now" from its last event would accept a late registration).
@@ -452,8 +518,20 @@ func runCase(c *kit.Case) {
 		// final: move past every deadline; everything pending must be reported exactly once
 		if settle() {
 			if mode == "burst" {
+				slow := rng.Intn(2) == 0
+				if slow {
+					pause()
+					r.Count("advances_with_paused_consumer", 1)
+				}
 				clock.Advance(time.Duration(maxStep+2) * grid)
-				trace = append(trace, opRec{Op: "advance", Adv: "to-end", Now: clock.Now().Sub(t0).String()})
+				trace = append(trace, opRec{Op: "advance", Adv: "to-end", Now: clock.Now().Sub(t0).String(), Status: map[bool]string{true: "consumer-paused"}[slow]})
+				if slow {
+					settle()
+					if len(dl.C()) == cap(dl.C()) {
+						r.Count("output_buffer_full_while_consumer_paused", 1)
+					}
+					unpause()
+				}
 				if settle() {
 					validate()
 				}
